@@ -18,6 +18,10 @@ def run_on_scratch(patch, pids, tier='quick', keep=False):
         return None
     results = {}
     try:
+        # the checks run from a SNAPSHOT of the machinery (bin, lib, spec, harness): a long matrix run is not disturbed by edits made meanwhile
+        snap = os.path.join(base, 'verif')
+        subprocess.run(['rsync', '-a', '--exclude', '.work', '--exclude', '.git', '--exclude', 'seeded', '--exclude', 'benign', '--exclude', 'evidence',
+                        vlib.VERIF + '/', snap + '/'], check=True)
         r = subprocess.run(['git', '-C', wt, 'apply', patch], capture_output=True, text=True)
         if r.returncode != 0:
             subprocess.run(['git', '-C', wt, 'reset', '--hard', '-q'])
@@ -28,7 +32,7 @@ def run_on_scratch(patch, pids, tier='quick', keep=False):
         for pid in pids:
             t0 = time.time()
             env = dict(os.environ, VERIF_TIER=tier, VERIF_REPO=wt, VERIF_WORK=work, VERIF_EVIDENCE_DIR=os.path.join(work, 'evidence'))
-            p = subprocess.run([os.path.join(vlib.VERIF, 'bin', 'verif'), 'check', pid], capture_output=True, text=True, env=env)
+            p = subprocess.run([os.path.join(snap, 'bin', 'verif'), 'check', pid], capture_output=True, text=True, env=env, cwd=snap)
             viol = [l for l in p.stdout.splitlines() if l.startswith('VIOLATION')]
             detail = [l.strip() for l in p.stderr.splitlines() if 'violation:' in l][:3]
             results[pid] = {'rc': p.returncode, 'violations': len(viol), 'wall_s': round(time.time() - t0, 1), 'detail': detail}
